@@ -190,7 +190,29 @@ def c_circuit_state(ctx, args):
     return None
 
 
-CHECKS = {'circuit_state': c_circuit_state, 'ctor_fresh': __import__('props.C17', fromlist=['c_ctor_fresh']).c_ctor_fresh, 'walk': c_walk}
+def c_copy_extend_state(ctx, args):
+    """a state sent through a copy of a circuit that was extended after copying (and compiled) is the state the gates produce one at a time, and is valid"""
+    N, base, extra, t = args
+    from vlib import states as S_
+    c = NP.build_circuit(N, base, 'CliffordCircuit')
+    c2 = c.copy()
+    for ins in extra:
+        c2.take(NP.mk_gate(ins[1]))
+    c2.compile()
+    s, ref = NP.STATE(t), NP.STATE(t)
+    c2.forward(s)
+    for ins in base + extra:
+        NP.mk_gate(ins[1]).forward(ref)
+    got = NP.oST(s)
+    inv = S_.tableau_invariant_py(got)
+    if inv:
+        return {'kind': 'oracle', 'where': 'np:state after the compiled extended copy of a circuit breaks the tableau invariant: ' + inv, 'observed': str(got)[:400], 'expected': 'a valid tableau', 'tags': ['copy_extend']}
+    if got != NP.oST(ref):
+        return {'kind': 'oracle', 'where': 'np:state after the compiled extended copy of a circuit differs from the gates one at a time', 'observed': str(got)[:400], 'expected': str(NP.oST(ref))[:400], 'tags': ['copy_extend']}
+    return None
+
+
+CHECKS = {'copy_extend_state': c_copy_extend_state, 'circuit_state': c_circuit_state, 'ctor_fresh': __import__('props.C17', fromlist=['c_ctor_fresh']).c_ctor_fresh, 'walk': c_walk}
 
 
 def rstep(ctx, rng, N, pure_hint):
@@ -239,6 +261,11 @@ def run(ctx):
             for use in ('flip', 'library'):
                 for _ in range(max(2, int(2 * B))):
                     do(ctx, 'ctor_fresh', [be, what, rng.randint(1, 4), rng.randrange(10 ** 6), use], nontrivial=('cf', be, what, use, ctx.res.evaluations))
+    for it in range(int(30 * B)):
+        N = rng.randint(2, 4)
+        base = [[0, gen.rgate(rng, ctx.model, N, kinds=('gen', 'named', 'fwd'))] for _ in range(rng.randint(1, 3))]
+        extra = [[0, gen.rgate(rng, ctx.model, N, kinds=('gen', 'named', 'fwd'))] for _ in range(rng.randint(1, 3))]
+        do(ctx, 'copy_extend_state', [N, base, extra, gen.rtableau(rng, ctx.model, N)], nontrivial=('ces', it))
     # states through whole circuits, small registers and registers beyond one machine word (gates next to the word boundaries)
     for it in range(int(24 * B)):
         N = [2, 3, 5, 9, 65, 66][it % 6]
